@@ -76,6 +76,9 @@ def api_case(n, markers, perm, avail=None):
     fs = [uf("f%d" % i, deriv=avail[i][0], deriv2=avail[i][1]) for i in range(n)]
     d0 = [Multi_Range_Defn(markers[i], S[i], fs[i]) for i in range(n)]
     mr1 = create_Multi_Range_Potential_Form(*d0)
+    # range definitions are plain values: another potential made from one of the same definition objects, followed by a
+    # different range, leaves this one as it is
+    create_Multi_Range_Potential_Form(d0[0], Multi_Range_Defn(">", sym("sx"), uf("fx")))
 
     def ev(mr):
       if hasattr(mr, "deriv") != (any_d or any_d2) or hasattr(mr, "deriv2") != any_d2:
@@ -177,7 +180,10 @@ def replay_api(n, markers, perm, w, avail=None):
     return (raw[i](x), d(x), d2)
   results = []
   for order in (tuple(range(n)), perm):
-    mr = create_Multi_Range_Potential_Form(*[Multi_Range_Defn(markers[i], S[i], fs[i]) for i in order])
+    defs = [Multi_Range_Defn(markers[i], S[i], fs[i]) for i in order]
+    mr = create_Multi_Range_Potential_Form(*defs)
+    if order == tuple(range(n)):
+      create_Multi_Range_Potential_Form(defs[0], Multi_Range_Defn(">", float(w.get("sx", 0.0)), F(n)))
     results.append((mr(r), mr.deriv(r) if hasattr(mr, "deriv") else None, mr.deriv2(r) if hasattr(mr, "deriv2") else None))
     b = concrete_oracle(markers, S, r, 0)
     if b == "ambiguous":
